@@ -103,7 +103,9 @@ pub(crate) fn parse_directive(jsx_attr: &JSXAttr, is_component: bool) -> Directi
                         }
                     }
                 }
-            } else {
+            }
+            if modifiers.is_none() {
+                // no modifier list in the array: the `_` suffixes of the name apply
                 modifiers = Some(splitted.map(Atom::from).collect());
             }
         } else {
@@ -296,10 +298,11 @@ fn parse_v_model_directive(
                     }
                 }
             }
-        } else {
-            if is_component && argument.is_none() {
-                argument = Some(Expr::Lit(Lit::Null(Null { span: DUMMY_SP })));
-            }
+        } else if is_component && argument.is_none() {
+            argument = Some(Expr::Lit(Lit::Null(Null { span: DUMMY_SP })));
+        }
+        if modifiers.is_none() {
+            // no modifier list in the array: the `_` suffixes of the name apply
             modifiers = Some(splitted_attr_name.map(Atom::from).collect());
         }
     } else {
